@@ -114,7 +114,9 @@ func (s *Schema) AddType(name string, sc jschema.Schema) (err error) {
 			return fmt.Errorf("load added type: %w", err)
 		}
 
-		s.inner.AddNamedType(name, typ.inner, s.file, 0)
+		// The type lives in its own file: errors found inside it carry positions
+		// relative to that file and must be rendered against it.
+		s.inner.AddNamedType(name, typ.inner, typ.file, 0)
 	case *regex.Schema:
 		pattern, err := typ.Pattern()
 		if err != nil {
@@ -131,7 +133,7 @@ func (s *Schema) AddType(name string, sc jschema.Schema) (err error) {
 			return fmt.Errorf("load added type: %w", err)
 		}
 
-		s.inner.AddNamedType(name, typSc.inner, s.file, 0)
+		s.inner.AddNamedType(name, typSc.inner, typSc.file, 0)
 
 	default:
 		return fmt.Errorf("schema should be JSight or Regex schema, but %T given", sc)
